@@ -182,9 +182,9 @@ def penalty_method():
         }),''',
                 closures=[dict(params='id', typed='id: &u64', ret='u64', requires='*id < u64::MAX', ensures='ret == *id + 1')],
                 subs=[('self.defined_ids().last().map(', 'opt_map(btreeset_last(&self.defined_ids()), '),
-                      ('hashmap! { "parameter_id".to_string() => parameter.id.to_string() }', 'hashmap1("parameter_id".to_string(), u64_to_string(parameter.id))'),
                       ('let mut parameters = Vec::new();', 'let mut parameters: Vec<Parameter> = Vec::new();')],
                 rsubs=[(r'let mut removed_constraints =', 'let mut removed_constraints: Vec<RemovedConstraint> =', 1),
+                       (r'hashmap!\s*\{\s*("parameter_id"\.to_string\(\))\s*=>\s*([\w\.]+)\.to_string\(\)\s*\}', r'hashmap1(\1, u64_to_string(\2))', 1),
                        (r'self\.constraints\.into_iter\(\)\.enumerate\(\)', 'enumerate_vec(self.constraints)', 1),
                        (r'&parameter \* ((?:\w+)(?:\.\w+\([^()]*\))*)', r'<&Parameter as core::ops::Mul<Function>>::mul(&parameter, \1)', None)],
                 loops=[dict(kind='for', it='it_1', rebind='(__e.0, __e.1.vclone())',
@@ -393,7 +393,7 @@ pub fn add_integer_slack_to_inequality(&mut self, constraint_id: u64, slack_uppe
                 closures=SLACK_COMMON_SUBS['closures'],
                 subs=[('self.defined_ids().last().map(', 'opt_map(btreeset_last(&self.defined_ids()), ')],
                 rsubs=[(r'for id in f\.used_decision_variable_ids\(\) \{', 'for id in btreeset_to_vec(&f.used_decision_variable_ids()) {', 1),
-                       (r'slack_upper_bound as F64', 'u64_as_f64(slack_upper_bound)', 2)],
+                       (r'slack_upper_bound as F64', 'u64_as_f64(slack_upper_bound)', None)],
                 loops=[dict(kind='for', it='it_1', rebind='*__e', body_proof=' proof { assert(*__e == __h1[it_1.index@ as int]); }', inv='''invariant
                 forall|j: int| 0 <= j < it_1.index@ ==> int_kind_id(old(self).decision_variables@, #[trigger] __h1[j]),''')],
                 proofs=[(('before', r'let slack_id ='), '''proof {
